@@ -245,7 +245,9 @@ theorem applySetting_connIn {st st' : State} {sm sm' : Bool} {p : Nat × Nat}
     (h : applySetting st sm p = some (st', sm')) : st'.connIn = st.connIn := by
   unfold applySetting at h
   split at h
-  · cases h; rfl
+  · split at h
+    · cases h
+    · cases h; rfl
   · split at h
     · cases h; rfl
     · split at h
